@@ -128,8 +128,5 @@
 (declare-fun macroRes (Tr Int Str) Iface)
 (declare-fun macroFound (Tr Int Str) Bool)
 
-; ---- the decimal form of an integer (C07, C19, C20: what a number prints as). Named, not interpreted,
-; except that different integers print differently.
+; ---- the decimal form of an integer (C07, C19, C20: what a number prints as). Named, not interpreted.
 (declare-fun decimal (Int) Str)
-(declare-fun undecimal (Str) Int)
-(assert (forall ((i Int)) (! (= (undecimal (decimal i)) i) :pattern ((decimal i)))))
